@@ -13,5 +13,6 @@ CONSTANTS
   InitRate = 1
   F6Quirk = FALSE
   F7Quirk = FALSE
+  PoorShare = 0
 INVARIANTS NoError RevLogMatches RevokedIsLoggedOrCurrent EveryBroadcastableIsKnown
 CHECK_DEADLOCK FALSE
